@@ -783,6 +783,16 @@ func (x *txnCtx) ascend(op *Op, want sel) {
 		}
 		seen[o] = true
 		if !exp[o] {
+			if _, live := m.Rows[o]; !live {
+				class := "ascend/dead-row/unfiltered"
+				if len(op.Filter) > 0 {
+					// (a Union with a column's presence bitmap can select what a dead row left behind:
+					// part of the known finding "store and delete of one row in one transaction")
+					class = "ascend/dead-row/filtered"
+				}
+				w.fail(violation(class, "Ascend(%q) after %s visited offset %d which holds no live row", op.Col, showChain(op.Filter), o))
+				return
+			}
 			w.fail(violation("ascend/extra", "Ascend(%q) visited row %d which is not a selected row holding a value in %q", op.Col, o, sx.Col))
 			return
 		}
